@@ -491,7 +491,9 @@ def _judge_add(res, w, route, lines, ents, expected_new, out, recs, changing, fa
     if any(v is None or v == "" for v in vals):
         res.bad("relisted-entries-differ", "empty/bare SocksPort item in %r" % rec["line"])
         return False
-    stale = [v for v in vals if v in pending["refused"] and v != expected_new]
+    # (a line Tor refused earlier but HAS meanwhile - another controller configured it - is an existing entry and must
+    #  be re-listed; found by the thorough tier at seed 3, DESIGN section 7)
+    stale = [v for v in vals if v in pending["refused"] and v != expected_new and v not in lines]
     if stale:
         res.bad("refused-earlier-request-sent-again", "Tor refused %r earlier (and the caller was told so); the "
                 "SETCONF for %r lists it again: %r" % (stale, expected_new, rec["line"]))
